@@ -669,7 +669,10 @@ class Interp:
         if isinstance(n, ast.Subscript):
             base = self.eval(n.value, frame, st)
             idx = self.eval_slice(n.slice, frame, st)
-            return self.subscript(base, idx)
+            r = self.subscript(base, idx)
+            if idx[0] == "const" and isinstance(idx[2], int) and not isinstance(idx[2], bool) and r[0] == "sub":
+                self._event("index", r, None, st, n, frame)      # x[<literal position>]: raises on a sequence that is too short
+            return r
         if isinstance(n, ast.Call):
             return self.eval_call(n, frame, st)
         if isinstance(n, ast.BinOp):
@@ -1213,6 +1216,28 @@ def subterms(t: Term):
 
 _KINDS = {"const", "param", "name", "attr", "sub", "slice", "call", "bin", "un", "cmp", "bool", "ifexp", "tuple", "fstr", "fmt",
           "obj", "lam", "elem", "idx", "key", "val", "loopvar", "after", "unbound", "exc", "star", "dstar", "phi", "first"}
+
+
+def deep_subterms(it: "Interp", t: Term, depth: int = 0, seen=None):
+    """subterms of t, looking through the objects it mentions (display elements, comprehension elements and sources)."""
+    seen = seen if seen is not None else set()
+    for x in subterms(t):
+        yield x
+        if x[0] == "obj" and depth < 5 and x[1] not in seen:
+            seen.add(x[1])
+            o = it.objs[x[1]]
+            for i in o.init:
+                yield from deep_subterms(it, i, depth + 1, seen)
+            for e in it.events:
+                if (e.kind == "elem" and e.term == x) or (e.kind == "call" and e.term[1][0] == "attr" and e.term[1][1] == x):
+                    if e.value is not None:
+                        yield from deep_subterms(it, e.value, depth + 1, seen)
+                    if e.kind == "call":
+                        for a in e.term[2]:
+                            yield from deep_subterms(it, a, depth + 1, seen)
+                    for L in e.loops:
+                        if L not in o.loops and it.loops[L].iter is not None:
+                            yield from deep_subterms(it, it.loops[L].iter, depth + 1, seen)
 
 
 def callee(t: Term) -> Optional[str]:
